@@ -21,6 +21,7 @@ fn main() {
         "C02" => props::c02::run(tier),
         "C03" => props::c03::run(tier),
         "C04" => props::c04::run(tier),
+        "C05" => props::c05::run(tier),
         "C07" => props::c07::run(tier),
         "C12" => props::c12::run(tier),
         "C13" => props::c13::run(tier),
